@@ -25,9 +25,10 @@ VARIABLES l, alarms, cfg,
           epochs,   \* epoch -> [t, tround, members]
           upN,      \* node -> BOOLEAN
           healedAt, \* clock (max) at the last Heal/Start event, -1 if none pending
+          lastLive, \* the previous live Quiesce record of the scenario ([set |-> FALSE] if none)
           reg       \* <<node, epoch>> -> stored head of the node when TransitionNewGroup was registered
 
-tvars == <<l, alarms, cfg, clk, store, got, signed, lastTick, epochOf, epochs, upN, healedAt, reg>>
+tvars == <<l, alarms, cfg, clk, store, got, signed, lastTick, epochOf, epochs, upN, healedAt, reg, lastLive>>
 
 NodesT == 0..7
 EmptyFn == [x \in {} |-> 0]
@@ -58,7 +59,7 @@ Blank == /\ clk = [n \in NodesT |-> 0] /\ store = [n \in NodesT |-> EmptyFn]
          /\ got = [n \in NodesT |-> {}] /\ signed = [n \in NodesT |-> {}]
          /\ lastTick = [n \in NodesT |-> [round |-> 0, cause |-> "none"]]
          /\ epochOf = [n \in NodesT |-> 0] /\ epochs = EmptyFn /\ upN = [n \in NodesT |-> FALSE]
-         /\ healedAt = -1 /\ reg = EmptyFn
+         /\ healedAt = -1 /\ reg = EmptyFn /\ lastLive = [set |-> FALSE]
 
 TraceInit == /\ l = 1 /\ alarms = {} /\ cfg = [scenario |-> "none", period |-> 1, t |-> 1, n |-> 1, chained |-> FALSE, catchup |-> 1]
              /\ Blank
@@ -75,21 +76,21 @@ StepInit(e) ==
   /\ lastTick' = [n \in NodesT |-> [round |-> 0, cause |-> "none"]]
   /\ epochOf' = [n \in NodesT |-> 0]
   /\ epochs' = (0 :> [t |-> e.t, tround |-> 0, members |-> Range(e.group)])
-  /\ upN' = [n \in NodesT |-> FALSE] /\ healedAt' = -1 /\ reg' = EmptyFn
+  /\ upN' = [n \in NodesT |-> FALSE] /\ healedAt' = -1 /\ reg' = EmptyFn /\ lastLive' = [set |-> FALSE]
   /\ alarms' = alarms
 
 StepClock(e) ==
   /\ e.ev = "Clock"
   /\ clk' = [clk EXCEPT ![e.node] = e.now]
   /\ alarms' = alarms
-  /\ Keep(<<cfg, store, got, signed, lastTick, epochOf, epochs, upN, healedAt, reg>>)
+  /\ Keep(<<cfg, store, got, signed, lastTick, epochOf, epochs, upN, healedAt, reg, lastLive>>)
 
 StepTick(e) ==
   /\ e.ev = "Tick"
   /\ lastTick' = [lastTick EXCEPT ![e.node] = [round |-> e.round, cause |-> "tick"]]
   \* ticker.go: a tick carries the round of the clock
   /\ alarms' = alarms \cup If(e.round > RoundAt(e.clock), {Alarm("TickRound", e, "tick carries a round beyond the clock")})
-  /\ Keep(<<cfg, clk, store, got, signed, epochOf, epochs, upN, healedAt, reg>>)
+  /\ Keep(<<cfg, clk, store, got, signed, epochOf, epochs, upN, healedAt, reg, lastLive>>)
 
 \* C04: an honest partial for round r leaves the node only at or after TimeOf(r).
 \* The named deviation (F8): the run loop handles a tick of round c when the stored head is already
@@ -103,7 +104,7 @@ StepBcast(e) ==
   /\ e.ev = "Bcast"
   /\ signed' = [signed EXCEPT ![e.node] = @ \cup {e.round}]
   /\ alarms' = alarms \cup If(e.clock < TimeOf(e.round), {Alarm("NoEarlyPartial", e, EarlyDetail(e.node, e.round))})
-  /\ Keep(<<cfg, clk, store, got, lastTick, epochOf, epochs, upN, healedAt, reg>>)
+  /\ Keep(<<cfg, clk, store, got, lastTick, epochOf, epochs, upN, healedAt, reg, lastLive>>)
 
 StepSend(e) ==
   /\ e.ev = "Send"
@@ -111,7 +112,7 @@ StepSend(e) ==
                       \* (a joiner or restarted node may send new-share partials early: they simply do not count)
                       \cup If("sigEpoch" \in DOMAIN e /\ e.sigEpoch >= 0 /\ DueEpoch(e.from, e.round) >= 0 /\ e.sigEpoch < DueEpoch(e.from, e.round),
                               {Alarm("WrongShareEpoch", e, "old share used at or after the transition round")})
-  /\ Keep(<<cfg, clk, store, got, signed, lastTick, epochOf, epochs, upN, healedAt, reg>>)
+  /\ Keep(<<cfg, clk, store, got, signed, lastTick, epochOf, epochs, upN, healedAt, reg, lastLive>>)
 
 \* a partial is handed to ProcessPartialBeacon (logged before the call)
 StepDeliver(e) ==
@@ -119,7 +120,7 @@ StepDeliver(e) ==
   /\ got' = IF e.valid /\ e.member /\ ~e.own THEN [got EXCEPT ![e.to] = @ \cup {<<e.round, e.prevd, e.idx, e.epoch>>}] ELSE got
   /\ epochOf' = IF e.epoch >= 0 THEN [epochOf EXCEPT ![e.to] = e.epoch] ELSE epochOf
   /\ alarms' = alarms
-  /\ Keep(<<cfg, clk, store, signed, lastTick, epochs, upN, healedAt, reg>>)
+  /\ Keep(<<cfg, clk, store, signed, lastTick, epochs, upN, healedAt, reg, lastLive>>)
 
 \* ProcessPartialBeacon returned: what may have reached the aggregator
 StepRecv(e) ==
@@ -134,7 +135,7 @@ StepRecv(e) ==
         /\ got' = IF ~acc /\ "idx" \in DOMAIN e /\ e.valid /\ e.member /\ ~e.own   \* a VALID partial that was turned away does not count; a rejected forgery removes nothing
                     THEN [got EXCEPT ![e.to] = {x \in @ : ~(x[1] = e.round /\ x[2] = e.prevd /\ x[3] = e.idx)}] ELSE got
         /\ epochOf' = IF "epoch" \in DOMAIN e /\ e.epoch >= 0 THEN [epochOf EXCEPT ![e.to] = e.epoch] ELSE epochOf
-  /\ Keep(<<cfg, clk, store, signed, lastTick, epochs, upN, healedAt, reg>>)
+  /\ Keep(<<cfg, clk, store, signed, lastTick, epochs, upN, healedAt, reg, lastLive>>)
 
 \* distinct signers whose partial for exactly (r, prevd) was valid under the epoch that is due for round r
 Signers(n, r, prevd, ep) == {x[3] : x \in {y \in got[n] : y[1] = r /\ (y[2] = prevd \/ ~cfg.chained) /\ y[4] = ep}}
@@ -166,7 +167,7 @@ StepStorePut(e) ==
                     ELSE store
         \* the vault switches when round tround-1 is stored (observed on the next events); drop partial bookkeeping of old rounds
         /\ got' = IF ok THEN [got EXCEPT ![n] = {x \in @ : x[1] > e.round}] ELSE got
-  /\ Keep(<<cfg, clk, signed, lastTick, epochOf, epochs, upN, healedAt, reg>>)
+  /\ Keep(<<cfg, clk, signed, lastTick, epochOf, epochs, upN, healedAt, reg, lastLive>>)
 
 StepStart(e) ==
   /\ e.ev = "Start"
@@ -178,20 +179,20 @@ StepStart(e) ==
      /\ got' = [got EXCEPT ![e.node] = {}]
      /\ healedAt' = healedAt
   /\ alarms' = alarms
-  /\ Keep(<<cfg, store, lastTick, epochs, reg>>)
+  /\ Keep(<<cfg, store, lastTick, epochs, reg, lastLive>>)
 
 StepStop(e) ==
   /\ e.ev = "Stop"
   /\ upN' = [upN EXCEPT ![e.node] = FALSE]
   /\ alarms' = alarms
-  /\ Keep(<<cfg, clk, store, got, signed, lastTick, epochOf, epochs, healedAt, reg>>)
+  /\ Keep(<<cfg, clk, store, got, signed, lastTick, epochOf, epochs, healedAt, reg, lastLive>>)
 
 \* peer sync serving: every item equals what the serving node stored (C01/C11 at network level)
 StepSyncItem(e) ==
   /\ e.ev = "SyncItem"
   /\ alarms' = alarms \cup If(e.round \notin DOMAIN store[e.peer] \/ (e.round \in DOMAIN store[e.peer] /\ store[e.peer][e.round][1] # e.sigd),
                               {Alarm("ServedNotStored", e, "sync stream item differs from the stored beacon")})
-  /\ Keep(<<cfg, clk, store, got, signed, lastTick, epochOf, epochs, upN, healedAt, reg>>)
+  /\ Keep(<<cfg, clk, store, got, signed, lastTick, epochOf, epochs, upN, healedAt, reg, lastLive>>)
 
 \* full cursor scan of a base store: gap-free 0..head, every round verifies, equals what was put
 StepScan(e) ==
@@ -205,55 +206,69 @@ StepScan(e) ==
          A4 == If(\E k \in DOMAIN rows : k > 1 /\ rows[k][1] <= rows[k - 1][1], {Alarm("ScanOrder", e, "cursor not ascending")})
          A5 == If(cfg.backend # "memdb" /\ DOMAIN st # {} /\ ~(DOMAIN st \subseteq rs), {Alarm("ScanLost", e, "a beacon that was put is missing")})
      IN alarms' = alarms \cup A1 \cup A2 \cup A3 \cup A4 \cup A5
-  /\ Keep(<<cfg, clk, store, got, signed, lastTick, epochOf, epochs, upN, healedAt, reg>>)
+  /\ Keep(<<cfg, clk, store, got, signed, lastTick, epochOf, epochs, upN, healedAt, reg, lastLive>>)
 
 \* C07: fabricated resharing registered on the nodes
 StepReshare(e) ==
   /\ e.ev = "Reshare"
   /\ epochs' = [x \in (DOMAIN epochs) \cup {e.epoch} |-> IF x = e.epoch THEN [t |-> e.t, tround |-> e.tround, members |-> Range(e.members)] ELSE epochs[x]]
   /\ alarms' = alarms \cup If(~e.samekey, {Alarm("IdentityChanged", e, "distributed public key changed")})
-  /\ Keep(<<cfg, clk, store, got, signed, lastTick, epochOf, upN, healedAt, reg>>)
+  /\ Keep(<<cfg, clk, store, got, signed, lastTick, epochOf, upN, healedAt, reg, lastLive>>)
 
-\* C05 (finite-trace form): at a quiescent point after the faults healed, with at least a threshold of
-\* up nodes whose clocks have been inside round R for a catch-up budget, every up node stores round R.
+\* C05 (finite-trace form), judged at quiescent points (no message in flight) of the healed phase with at
+\* least a threshold of running nodes:
+\*   LeftBehind   every running node is within one round of the most advanced one (a node that was down or cut
+\*                off rejoined by syncing);
+\*   Stalled      since the previous such point, a full period later with the same nodes up, the chain advanced
+\*                (unless it already is at the round that is due);
+\*   CatchupRate  in scenarios where NO node is ahead (everybody equally behind, label "live-catchup..."), the
+\*                chain is at the round that was due one period earlier: it caught up at the catch-up rate.
+\* (Whether a lagging but level and advancing chain closes its lag also when some nodes obtain beacons by sync
+\*  instead of aggregation depends on who wins that race each round; that is decided on the design model.)
+MaxOf(S) == CHOOSE x \in S : \A y \in S : y <= x
+MinOf(S) == CHOOSE x \in S : \A y \in S : x <= y
 StepQuiesce(e) ==
   /\ e.ev = "Quiesce"
   /\ LET ups == {n \in 0..(cfg.n - 1) : e.up[n + 1]}
-         minClk == IF ups = {} THEN 0 ELSE CHOOSE c \in {e.clocks[n + 1] : n \in ups} : \A m \in ups : c <= e.clocks[m + 1]
+         live == e.live /\ Cardinality(ups) >= cfg.t
+         hs == {e.heads[n + 1] : n \in ups}
+         minClk == IF ups = {} THEN 0 ELSE MinOf({e.clocks[n + 1] : n \in ups})
          due == RoundAt(minClk - Period)   \* tickers may be out of phase by less than one period
-         live == e.live
-         A1 == If(live /\ Cardinality(ups) >= cfg.t /\ \E n \in ups : e.heads[n + 1] < due,
-                  {Alarm("NoProgress", e, e.label)})
+         A1 == If(live /\ MinOf(hs) < MaxOf(hs) - 1, {Alarm("NoProgress", e, "left-behind")})
+         A1b == If(live /\ lastLive.set /\ lastLive.ups = ups /\ minClk >= lastLive.minClk + Period
+                       /\ MaxOf(hs) <= lastLive.maxHead /\ MaxOf(hs) < due, {Alarm("NoProgress", e, "stalled")})
+         A1c == If(live /\ "catchup" \in DOMAIN e /\ e.catchup /\ MinOf(hs) < due, {Alarm("NoProgress", e, "catch-up-rate")})
          A2 == If(\E n \in ups : e.heads[n + 1] > RoundAt(e.clocks[n + 1]) + 1, {Alarm("HeadBeyondClock", e, "head more than one round ahead of the node's clock")})
          \* C07: at quiescence the vault of every running node holds the epoch that is due for the next round
          A3 == If("epochs" \in DOMAIN e /\ \E n \in ups : e.heads[n + 1] >= 0 /\ DueEpoch(n, e.heads[n + 1] + 1) >= 0
                                                           /\ e.epochs[n + 1] # DueEpoch(n, e.heads[n + 1] + 1),
                   {Alarm("VaultEpoch", e, "live group/share is not the one due after the stored head")})
-     IN alarms' = alarms \cup A1 \cup A2 \cup A3
+     IN /\ alarms' = alarms \cup A1 \cup A1b \cup A1c \cup A2 \cup A3
+        /\ lastLive' = IF live THEN [set |-> TRUE, ups |-> ups, minClk |-> minClk, maxHead |-> MaxOf(hs)] ELSE lastLive
   /\ Keep(<<cfg, clk, store, got, signed, lastTick, epochOf, epochs, upN, healedAt, reg>>)
 
 \* conformance of a scripted TLC behaviour: the model's heads vs the observed heads
 StepExpect(e) ==
   /\ e.ev = "Expect"
   /\ alarms' = alarms \cup If(e.heads # e.obs, {Alarm("Conformance", e, "heads differ from the model's state")})
-  /\ Keep(<<cfg, clk, store, got, signed, lastTick, epochOf, epochs, upN, healedAt, reg>>)
+  /\ Keep(<<cfg, clk, store, got, signed, lastTick, epochOf, epochs, upN, healedAt, reg, lastLive>>)
 
 StepTransition(e) ==
   /\ e.ev = "Transition"
   /\ alarms' = alarms
   /\ reg' = [k \in (DOMAIN reg) \cup {<<e.node, e.epoch>>} |-> IF k = <<e.node, e.epoch>> THEN HeadOf(store[e.node]) ELSE reg[k]]
-  /\ Keep(<<cfg, clk, store, got, signed, lastTick, epochOf, epochs, upN, healedAt>>)
+  /\ Keep(<<cfg, clk, store, got, signed, lastTick, epochOf, epochs, upN, healedAt, lastLive>>)
 
 StepCatchupFire(e) ==
   /\ e.ev = "CatchupFire"
   /\ lastTick' = [lastTick EXCEPT ![e.node] = [round |-> @.round, cause |-> "catchup"]]
   /\ alarms' = alarms
-  /\ Keep(<<cfg, clk, store, got, signed, epochOf, epochs, upN, healedAt, reg>>)
+  /\ Keep(<<cfg, clk, store, got, signed, epochOf, epochs, upN, healedAt, reg, lastLive>>)
 
 Other(e) ==
   /\ e.ev \in {"Catchup", "SyncOpen", "Partition", "Heal", "DropAll", "NoSuchMsg", "Parked", "End", "StopBlocked", "SettleTimeout", "Note"}
   /\ alarms' = alarms \cup If(e.ev = "StopBlocked", {Alarm("HandlerDidNotReturn", e, "Stop")})
-  /\ Keep(<<cfg, clk, store, got, signed, lastTick, epochOf, epochs, upN, healedAt, reg>>)
+  /\ Keep(<<cfg, clk, store, got, signed, lastTick, epochOf, epochs, upN, healedAt, reg, lastLive>>)
 
 TraceNext ==
   /\ l <= Len(TraceLog)
